@@ -1,6 +1,8 @@
 package c02
 
 import (
+	"strconv"
+	"regexp"
 	"bytes"
 	"context"
 	"fmt"
@@ -25,6 +27,18 @@ import (
 )
 
 const partBatch = "batch"
+const attemptHeader = "x-verif-attempt"
+
+var attemptRe = regexp.MustCompile(`-resp-a(\d+)-`)
+
+func keys(m map[string]bool) []string {
+	var k []string
+	for x := range m {
+		k = append(k, x)
+	}
+	sort.Strings(k)
+	return k
+}
 const partWrap = "idwrap"
 
 const routeTimeout = 150 * time.Millisecond
@@ -88,7 +102,7 @@ func genBatch(rt *rapid.T, pairs []string) batch {
 		scripts = append(scripts, "twice", "unknown-id")
 	} else if rapid.IntRange(0, 1).Draw(rt, "retryPolicy") == 0 {
 		b.Retry = true
-		scripts = append(scripts, "retried", "retried", "retried")
+		scripts = append(scripts, "retried", "retried", "retried", "retried-stall", "retried-reset")
 	}
 	if rapid.IntRange(0, 2).Draw(rt, "faultFree") == 0 {
 		scripts = []string{"reply"}
@@ -194,9 +208,15 @@ func runBatch(rt *rapid.T, b batch) {
 		o.mu.Unlock()
 		o.arriveCh <- struct{}{}
 		a := mesh.Action{Hold: o.release[r.Token], Status: 200}
-		body := padded(r.Token, "-resp", sp.RespLen)
+		o.mu.Lock()
+		o.attempts[r.Token]++
+		attempt := o.attempts[r.Token]
+		o.mu.Unlock()
+		// the upstream's answers name the attempt they answer in a header AND in the body: a reply whose head was made
+		// by the proxy (no attempt header) must not carry an upstream body, and an upstream head carries its own body
+		body := padded(r.Token, fmt.Sprintf("-resp-a%d-", attempt), sp.RespLen)
 		a.Body = body
-		a.Header = [][2]string{{mesh.TokenHeader, r.Token}}
+		a.Header = [][2]string{{mesh.TokenHeader, r.Token}, {attemptHeader, strconv.Itoa(attempt)}}
 		if isX {
 			a.Frame = mesh.XBuildResponse(up, r.XID, r.Token, padded(r.Token, "-resp", sp.RespLen)[len(mesh.Wrap(r.Token)):])
 			a.Status = 0
@@ -204,12 +224,21 @@ func runBatch(rt *rapid.T, b batch) {
 		switch sp.Script {
 		case "retried":
 			a.Kind = "reply"
-			o.mu.Lock()
-			o.attempts[r.Token]++
-			first := o.attempts[r.Token] == 1
-			o.mu.Unlock()
-			if first { // answered at once with a retriable status; the attempt that follows waits for its release like any other
+			if attempt == 1 { // answered at once with a retriable status; the attempt that follows waits for its release like any other
 				a.Hold, a.Status = nil, 503
+			}
+		case "retried-stall", "retried-reset":
+			// the first attempt is answered 503 WITH a body and discarded by the retry; no later attempt is ever answered:
+			// the reply the client gets in the end is the proxy's own (timeout / upstream failure)
+			if attempt == 1 {
+				a.Kind, a.Hold, a.Status = "reply", nil, 503
+				if len(a.Body) < 600 {
+					a.Body = padded(r.Token, "-resp-a1-", 600)
+				}
+			} else if sp.Script == "retried-stall" {
+				a.Kind = "stall"
+			} else {
+				a.Kind = "reset"
 			}
 		case "reply":
 			a.Kind = "reply"
@@ -404,7 +433,7 @@ func runBatch(rt *rapid.T, b batch) {
 					if err != nil {
 						return // connection ended: nothing more can be attributed on it
 					}
-					checkHTTP(bad, o, b.Pair, ci, r, resp.Header.Get(mesh.TokenHeader), resp.Body)
+					checkHTTP(bad, o, b.Pair, ci, r, resp.Header.Get(mesh.TokenHeader), resp.Body, resp.Header.Get(attemptHeader))
 					checkDeadlineStatus(bad, b.Pair, ci, r, resp.Status)
 					if resp.Header.Get(mesh.TokenHeader) != "" {
 						rmu.Lock()
@@ -457,7 +486,7 @@ func runBatch(rt *rapid.T, b batch) {
 					if err != nil {
 						return
 					}
-					checkHTTP(bad, o, b.Pair, ci, r, resp.Header.Get(mesh.TokenHeader), body)
+					checkHTTP(bad, o, b.Pair, ci, r, resp.Header.Get(mesh.TokenHeader), body, resp.Header.Get(attemptHeader))
 					checkDeadlineStatus(bad, b.Pair, ci, r, resp.StatusCode)
 					if resp.Header.Get(mesh.TokenHeader) != "" {
 						rmu.Lock()
@@ -550,6 +579,12 @@ func runBatch(rt *rapid.T, b batch) {
 		}
 		o.mu.Unlock()
 		classes = append(classes, "retry-policy:"+b.Pair)
+		for _, r := range b.Reqs {
+			if r.Script == "retried-stall" || r.Script == "retried-reset" {
+				classes = append(classes, "discarded-5xx-body-then-proxy-made-reply")
+				break
+			}
+		}
 		if retried > 0 {
 			classes = append(classes, "request-retried-after-503", "request-retried-after-503:"+up)
 		}
@@ -578,8 +613,21 @@ func scriptsOf(b batch) []string {
 	return s
 }
 
-func checkHTTP(bad func(string, string, ...interface{}), o *obs, pair string, ci int, r reqSpec, hdrTok string, body []byte) {
+func checkHTTP(bad func(string, string, ...interface{}), o *obs, pair string, ci int, r reqSpec, hdrTok string, body []byte, attemptHdr ...string) {
 	bodyToks := mesh.TokensIn(body)
+	if len(attemptHdr) == 1 {
+		// which exchange made the head, which the body: an upstream answer names its attempt in both
+		bodyAttempts := map[string]bool{}
+		for _, m := range attemptRe.FindAllSubmatch(body, -1) {
+			bodyAttempts[string(m[1])] = true
+		}
+		switch {
+		case attemptHdr[0] == "" && len(bodyAttempts) > 0:
+			bad(pair+"/proxy-made-reply-carries-an-upstream-body", "conn %d request %s: the reply has no upstream attempt header (made by the proxy) but its body is the upstream's answer of attempt(s) %v (%d bytes)", ci, r.Token, keys(bodyAttempts), len(body))
+		case attemptHdr[0] != "" && len(bodyAttempts) > 0 && (len(bodyAttempts) > 1 || !bodyAttempts[attemptHdr[0]]):
+			bad(pair+"/head-and-body-of-different-attempts", "conn %d request %s: head of attempt %s, body of attempt(s) %v", ci, r.Token, attemptHdr[0], keys(bodyAttempts))
+		}
+	}
 	if hdrTok != "" && hdrTok != r.Token {
 		bad(pair+"/foreign-response-header", "conn %d request %s received response header token %s (owner script %s)", ci, r.Token, hdrTok, o.specs[hdrTok].Script)
 	}
